@@ -49,6 +49,9 @@ type IPFSLog struct {
 func (l *IPFSLog) Len() int {
 	verifYield(l, "enter.Len")
 
+	l.lock.RLock()
+	defer l.lock.RUnlock()
+
 	return l.Entries.Len()
 }
 
